@@ -6,7 +6,7 @@ fshift is translated as the ordered list of its observable stages (kind 'events'
 per-trace shift vector is reshaped, and the length / axis passed to the inverse transform - once per decision path
 (real input x scalar shift, real input x per-trace shifts, complex input).  The two shape assignments `shape[axis] = ns` and
 `s_shape[axis] = 1` are translated as expressions.  parabolic_max is translated as events whose arguments are regular-expression
-captures of the index / matrix / edge-test expressions (2-D branch: the three clipped positions; both branches: twice the 0.5
+captures of the index / matrix / edge-test expressions (the three clipped positions of either branch, twice the 0.5
 scale factor, the nine matrix entries, the operands of the two edge tests).  wave_shift_corrmax: the expression that turns the
 interpolated peak position into a shift (zero lag of a mode='same' correlation at floor(n / 2), sign).  shift_waveform: the
 loop over the spikes of the cluster (one delay estimate and one fshift of the spike's own traces per spike, in order).
@@ -23,6 +23,9 @@ _ROW = r'x\[\.\.\., np\.arange\(x\.shape\[0\]\), (.*?)\]'
 _PMAX_EVENTS = [
     [r'^np\.argmax\(x, axis=(.*)\)$', 'argmax', [r'\1']],
     [r'^np\.vstack\(\(' + _ROW + ', ' + _ROW + ', ' + _ROW + r'\)\)$', 'rows', [r'\1', r'\2', r'\3']],
+    # 1-D branch: the three positions sit in the subscript of an assignment (matched on the whole statement)
+    [r'^v010 = x\[np\.maximum\(np\.minimum\(imax \+ np\.array\(\[(.*), (.*), (.*)\]\), (.*)\), (.*)\)\]$', 'rows',
+     [r'max(min(imax + (\1), \4), \5)', r'max(min(imax + (\2), \4), \5)', r'max(min(imax + (\3), \4), \5)'], 'stmt'],
     [r'^np\.matmul\((.*) \* np\.array\(\[\[(.*), (.*), (.*)\], \[(.*), (.*), (.*)\], \[(.*), (.*), (.*)\]\]\), v010\)$', 'poly',
      [r'int(2 * (\1))'] + [f'\\{k}' for k in range(2, 11)]],
     [r'^np\.logical_or\((.*) == (.*), (.*) == (.*)\)$', 'edges', [r'\1', r'\2', r'\3', r'\4']],
@@ -55,6 +58,6 @@ SPEC = {
                  'IblVerif.Tie.C07.shift_waveform_loop_eq'],
     'covers': 'fourier.fshift: ordered stages on the three decision paths (impulse position and value, transform axes, reshape of '
               'per-trace shifts, length and axis of the inverse transform), extents shape[axis] / s_shape[axis]; utils.parabolic_max: '
-              'argmax axis, the three clipped positions of the 2-D branch, scale factor and matrix, edge tests; '
+              'argmax axis, the three clipped positions of the 1-D and of the 2-D branch, scale factor and matrix, edge tests; '
               'waveforms.wave_shift_corrmax: peak position -> shift (zero lag floor(n/2), sign); waveforms.shift_waveform: loop over spikes',
 }
